@@ -45,11 +45,12 @@ KF_SYNTH_E_REL = "synth_e_while_e_relative"
 
 def scen(w, template="enter,off,moves,on,moves", kinds="r"):
     names = template.split(",")
-    pipe = pl.Pipe(w, False)
-    ACA = w.env.AtCommandAction
-    actions = {"ExcludeRegion": [ACA(d["command"], d["parameterPattern"], d["action"], "") for d in pu.DEFAULT_AT],
-               "OBJECT": [ACA(c, p, a, "") for c, p, a in CUSTOM_ACTIONS]}
-    pipe.state.atCommandActions = actions
+    # through the real plugin hooks (handleGcodeQueuing / handleAtCommandQueuing), print active
+    at_cfg = list(pu.DEFAULT_AT) + [{"command": c, "parameterPattern": p, "action": a, "description": ""}
+                                    for c, p, a in CUSTOM_ACTIONS]
+    plugin = pu.make_plugin(w, at=at_cfg)
+    plugin.on_event(pu.events(w).PRINT_STARTED, None)
+    pipe = pl.Pipe(w, plugin=plugin)
     kind = "rect" if (kinds == "r" or w.choose(2, "rkind") == 0) else "disc"
     pipe.add_region(pl.fresh_region(w, kind, "r0"))
     pipe.prologue()
@@ -75,7 +76,7 @@ def scen(w, template="enter,off,moves,on,moves", kinds="r"):
             if effect is False and was_enabled and entered_with_z and KF_ENTER_Z in w.excluded:
                 w.assume(alg.not_(ep_before))
             try:
-                pipe.handlers.handleAtCommand(comm, cmd, params)
+                plugin.handleAtCommandQueuing(comm, "queuing", cmd, params)
             except Exception as ex:
                 w.fail("at-command-raises", "@%s %s raised %r" % (cmd, params, ex))
                 return
